@@ -187,12 +187,11 @@ Balanced(log, open) ==
 \* documented (same bag); when a missing key raises, whatever was yielded before must be among the expected objects
 Count(s, t) == Cardinality({j \in 1..Len(s) : s[j] = t})
 SameBag(s, t) == Len(s) = Len(t) /\ \A j \in 1..Len(s) : Count(s, s[j]) = Count(t, s[j])
+\* (bound by \E over singletons: TLC evaluates such values once; LET definitions are re-evaluated at every use)
 LogOkRead(sc, log) ==
-  LET exp == ExpectedRead(sc)
-      ys == Ops(log, {"yield"})
-      got == [j \in 1..Len(ys) |-> <<ys[j].a, ys[j].b, ys[j].c>>]
-      want == [j \in 1..Len(exp.out) |-> <<exp.out[j].f, exp.out[j].k, exp.out[j].c>>]
-  IN
+  \E exp \in {ExpectedRead(sc)} : \E ys \in {Ops(log, {"yield"})} :
+  \E got \in {[j \in 1..Len(ys) |-> <<ys[j].a, ys[j].b, ys[j].c>>]} :
+  \E want \in {[j \in 1..Len(exp.out) |-> <<exp.out[j].f, exp.out[j].k, exp.out[j].c>>]} :
   /\ exp.ok => Balanced(log, "")
   /\ exp.ok => SameBag(got, want) /\ [j \in 1..Len(got) |-> got[j][1]] = [j \in 1..Len(want) |-> want[j][1]]
   /\ ~exp.ok => \A j \in 1..Len(got) : Count(want, got[j]) > 0
